@@ -173,3 +173,119 @@ def kernel_correspondence(ctx, kinds, n_per_kind, scheds=("seq", "rev", "mix"), 
                     ".so and through the generated Lean definitions on Float under three schedules; bit-exact comparison; "
                     "distinct = distinct (kind, shape/options) with a non-zero output",
             "samples": descs[:3] + descs[-2:], "disagreements": disagreements[:10], "distribution": dist}
+
+
+# ------------------------------------------------------------------ rebuilds of the generated C (thorough tier of C15)
+CSRC = [("field/summator.c", "summator", "gcc"), ("krige/krigesum.c", "krigesum", "gcc"), ("variogram/estimator.cpp", "estimator", "g++")]
+
+
+def rebuild_extensions(src_root, scratch, openmp):
+    """compile the Cython-generated C/C++ of the tree into `scratch` (serial or -fopenmp) and import the results under private
+    names; returns {name: module} or raises RuntimeError with the compiler output.  Cython itself is not available in the
+    sandbox, so this is 'the compiled artefact the tree's own C gives', not a re-cythonization."""
+    import importlib.util
+    import os
+    import subprocess
+    import sysconfig
+    inc = [sysconfig.get_paths()["include"], np.get_include()]
+    ext = sysconfig.get_config_var("EXT_SUFFIX")
+    mods = {}
+    tag = "omp" if openmp else "ser"
+    for rel, name, cc in CSRC:
+        src = os.path.join(src_root, rel)
+        if not os.path.exists(src):
+            raise RuntimeError(f"generated source {rel} is not in the tree")
+        d = os.path.join(scratch, tag)
+        os.makedirs(d, exist_ok=True)
+        out = os.path.join(d, name + ext)
+        cmd = [cc, "-O2", "-shared", "-fPIC", "-w"] + (["-fopenmp"] if openmp else []) + ["-I" + i for i in inc] + [src, "-o", out, "-lm"]
+        p = subprocess.run(cmd, capture_output=True, text=True, timeout=900)
+        if p.returncode != 0:
+            raise RuntimeError(f"{' '.join(cmd[:3])} ... failed: {p.stderr[-600:]}")
+        spec = importlib.util.spec_from_file_location(name, out)
+        mod = importlib.util.module_from_spec(spec)
+        spec.loader.exec_module(mod)
+        mods[name] = mod
+    return mods
+
+
+def thread_sweep(ctx, n_cases, threads=(None, 1, 2, 3, 4, 8, 16)):
+    """three-way comparison on random inputs: the tree's .so  ==  serial rebuild of the tree's C  ==  OpenMP rebuild for every
+    thread count, bit for bit (counts exactly)"""
+    import shutil
+    import tempfile
+    import core
+    S, K, E = so_funcs()
+    scratch = tempfile.mkdtemp(prefix="gsv_c15_")
+    viol, ev, info = [], 0, {}
+    try:
+        try:
+            ser = rebuild_extensions(core.SRC, scratch, False)
+            omp = rebuild_extensions(core.SRC, scratch, True)
+        except RuntimeError as e:
+            return 0, [{"key": "rebuild-failed", "what": str(e), "case": {}}], {"rebuild": "failed"}
+        info["rebuild"] = "ok"
+        rng = np.random.RandomState(ctx.seed + 1515)
+
+        def cmp(label, tree_out, fn_ser, fn_omp, case):
+            nonlocal ev
+            tree_out = tree_out if isinstance(tree_out, tuple) else (tree_out,)
+            o = fn_ser(None)
+            o = o if isinstance(o, tuple) else (o,)
+            ev += 1
+            if not all(same(a, b) for a, b in zip(tree_out, o)):
+                viol.append({"key": f"so-vs-own-c:{label}", "what": f"the tree's compiled {label} differs from a serial gcc build of the tree's generated C", "case": case})
+            for nt in threads:
+                p = fn_omp(nt)
+                p = p if isinstance(p, tuple) else (p,)
+                ev += 1
+                if not all(same(a, b) for a, b in zip(tree_out, p)):
+                    viol.append({"key": f"openmp-threads:{label}", "what": f"OpenMP build of {label} with num_threads={nt} is not bit-identical to the serial artefact",
+                                 "case": dict(case, num_threads=nt)})
+                    break
+
+        for t in range(n_cases):
+            dim, N, X = int(rng.randint(1, 4)), int(rng.randint(1, 200)), int(rng.choice([1, 2, 7, 64, 500, 3000]))
+            cov, z1, z2, pos = rng.randn(dim, N), rng.randn(N), rng.randn(N), rng.randn(dim, X) * 5
+            sf = np.abs(rng.randn(N))
+            case = dict(dim=dim, N=N, X=X, seed=int(ctx.seed), case=t)
+            cmp("summate", S.summate(cov, z1, z2, pos), lambda nt: ser["summator"].summate(cov, z1, z2, pos, nt),
+                lambda nt: omp["summator"].summate(cov, z1, z2, pos, nt), case)
+            cmp("summate_fourier", S.summate_fourier(sf, cov, z1, z2, pos), lambda nt: ser["summator"].summate_fourier(sf, cov, z1, z2, pos, nt),
+                lambda nt: omp["summator"].summate_fourier(sf, cov, z1, z2, pos, nt), case)
+            if dim > 1:
+                cmp("summate_incompr", S.summate_incompr(cov, z1, z2, pos), lambda nt: ser["summator"].summate_incompr(cov, z1, z2, pos, nt),
+                    lambda nt: omp["summator"].summate_incompr(cov, z1, z2, pos, nt), case)
+            M, R = int(rng.randint(1, 60)), int(rng.choice([1, 3, 50, 1500]))
+            mat, vecs, cond = rng.randn(M, M), rng.randn(M, R), rng.randn(M)
+            cmp("krige_fv", K.calc_field_krige_and_variance(mat, vecs, cond), lambda nt: ser["krigesum"].calc_field_krige_and_variance(mat, vecs, cond, nt),
+                lambda nt: omp["krigesum"].calc_field_krige_and_variance(mat, vecs, cond, nt), dict(M=M, R=R, case=t))
+            cmp("krige_f", K.calc_field_krige(mat, vecs, cond), lambda nt: ser["krigesum"].calc_field_krige(mat, vecs, cond, nt),
+                lambda nt: omp["krigesum"].calc_field_krige(mat, vecs, cond, nt), dict(M=M, R=R, case=t))
+            P, F, B = int(rng.choice([2, 5, 40, 300])), int(rng.randint(1, 3)), int(rng.randint(2, 9))
+            vpos = rng.randn(dim, P) * 3
+            f = rng.randn(F, P)
+            if rng.rand() < 0.5:
+                f[rng.rand(F, P) < 0.1] = np.nan
+            bins = np.concatenate([[0.0], np.cumsum(rng.uniform(0.3, 2.0, size=B - 1))])
+            est = str(rng.choice(["m", "c"]))
+            vcase = dict(dim=dim, P=P, F=F, B=B, est=est, case=t)
+            cmp("unstructured", E.unstructured(f, bins, vpos, est, "e"), lambda nt: ser["estimator"].unstructured(f, bins, vpos, est, "e", nt),
+                lambda nt: omp["estimator"].unstructured(f, bins, vpos, est, "e", nt), vcase)
+            if dim > 1:
+                D = int(rng.randint(1, 4))
+                dr = rng.randn(D, dim)
+                dr /= np.linalg.norm(dr, axis=1)[:, None]
+                sep = bool(rng.rand() < 0.5)
+                cmp("directional", E.directional(f, bins, vpos, dr, np.pi / 8, -1.0, sep, est),
+                    lambda nt: ser["estimator"].directional(f, bins, vpos, dr, np.pi / 8, -1.0, sep, est, nt),
+                    lambda nt: omp["estimator"].directional(f, bins, vpos, dr, np.pi / 8, -1.0, sep, est, nt), dict(vcase, D=D, sep=sep))
+            g = rng.randn(int(rng.choice([2, 9, 60])), int(rng.choice([1, 4, 30])))
+            cmp("structured", E.structured(g, est), lambda nt: ser["estimator"].structured(g, est, nt), lambda nt: omp["estimator"].structured(g, est, nt),
+                dict(shape=list(g.shape), est=est, case=t))
+            msk = rng.rand(*g.shape) < 0.2
+            cmp("ma_structured", E.ma_structured(g, msk, est), lambda nt: ser["estimator"].ma_structured(g, msk, est, nt),
+                lambda nt: omp["estimator"].ma_structured(g, msk, est, nt), dict(shape=list(g.shape), est=est, case=t))
+    finally:
+        shutil.rmtree(scratch, ignore_errors=True)
+    return ev, viol, info
